@@ -356,10 +356,20 @@ func (s *Store[K, V]) GetWithSecodary(key K) (V, bool, error) {
 	return value, true, nil
 }
 
-func (s *Store[K, V]) policyNewEntry(hash uint64, shard *Shard[K, V], cost int64, entry *Entry[K, V], fromNVM bool) {
-	s.writeChan <- WriteBufItem[K, V]{
-		code: NEW, entry: entry, hash: hash, fromNVM: fromNVM, costChange: cost,
+// sendWrite hands an event to the maintenance goroutine. After Close nobody
+// receives from the queue any more, so the event is dropped instead of blocking
+// the caller forever on a full queue.
+func (s *Store[K, V]) sendWrite(item WriteBufItem[K, V]) {
+	select {
+	case s.writeChan <- item:
+	case <-s.ctx.Done():
 	}
+}
+
+func (s *Store[K, V]) policyNewEntry(hash uint64, shard *Shard[K, V], cost int64, entry *Entry[K, V], fromNVM bool) {
+	s.sendWrite(WriteBufItem[K, V]{
+		code: NEW, entry: entry, hash: hash, fromNVM: fromNVM, costChange: cost,
+	})
 }
 
 func (s *Store[K, V]) policyUpdateEntry(entry *Entry[K, V], hash uint64, cost, old int64, reschedule bool) {
@@ -367,10 +377,10 @@ func (s *Store[K, V]) policyUpdateEntry(entry *Entry[K, V], hash uint64, cost, o
 	// send cost change in event and apply them to entry policy weight
 	// so different order still works.
 	costChange := cost - old
-	s.writeChan <- WriteBufItem[K, V]{
+	s.sendWrite(WriteBufItem[K, V]{
 		entry: entry, code: UPDATE, costChange: costChange, rechedule: reschedule,
 		hash: hash,
-	}
+	})
 }
 
 type setShardResult[K comparable, V any] struct {
@@ -497,7 +507,7 @@ func (s *Store[K, V]) Delete(key K) {
 	}
 	shard.mu.Unlock()
 	if ok {
-		s.writeChan <- WriteBufItem[K, V]{entry: entry, code: REMOVE, hash: h}
+		s.sendWrite(WriteBufItem[K, V]{entry: entry, code: REMOVE, hash: h})
 	}
 }
 
@@ -520,7 +530,7 @@ func (s *Store[K, V]) DeleteWithSecondary(key K) error {
 	}
 	shard.mu.Unlock()
 	if ok {
-		s.writeChan <- WriteBufItem[K, V]{entry: entry, code: REMOVE}
+		s.sendWrite(WriteBufItem[K, V]{entry: entry, code: REMOVE})
 	}
 	return nil
 }
